@@ -351,6 +351,12 @@ def t1_common(site):
         r = guard_prior_index(site)
         if r:
             return r
+        # x[i..] / x[..i] / x[..=i] with i the variable of `for i in lo..x.len()`: i <= len
+        a = x.get("args") or []
+        if len(a) == 2 and a[1][0] == "agg" and a[1][2] and (a[1][1].endswith("RangeFrom::RangeFrom") or a[1][1].endswith("RangeTo::RangeTo")):
+            r2 = _range_loop_var(site.body, ExprBuilder(site.body), a[1][2][0])
+            if r2 and not r2[2] and r2[1][0] == "len" and canon(r2[1][1]) == canon(a[0]):
+                return "range bound is a loop variable below len() of the sliced object"
     if site.kind == "slice-api" and site.api and "copy_from_slice" in site.api:
         a = x.get("args") or []
         if len(a) == 2:
@@ -381,6 +387,11 @@ def t1_common(site):
                 return "split point is len(x) / c of the split object (<= len)"
             if mid[0] == "call" and mid[1].split("::")[-1] == "min" and any(y[0] == "len" and canon(y[1]) == canon(obj) for y in mid[2]):
                 return "split point is min(len(x), _) of the split object"
+            # the second half of x.split_at(len(x)/c), split again at len(x)/c: it has
+            # len - len/c >= len/c elements for c >= 2
+            if obj[0] == "field" and obj[2] == "1" and obj[1][0] == "call" and "split_at" in obj[1][1] and len(obj[1][2]) == 2 and canon(obj[1][2][1]) == canon(mid) \
+                    and mid[0] == "bin" and mid[1] == "Div" and mid[2][0] == "len" and canon(mid[2][1]) == canon(obj[1][2][0]) and mid[3][0] == "c" and mid[3][1] >= 2:
+                return "second half of x.split_at(len(x)/c) split at len(x)/c again: len - len/c >= len/c"
     return None
 
 
